@@ -21,8 +21,18 @@ CR = 'pavexc'
 DG = 'pavexc::compiler::analyses::domain::DomainGuard'
 VALIDATE = 'pavexc::compiler::analyses::domain::validate'
 PATTERN = DG + '::matchit_pattern'
-NORMALISERS = {'trim_end_matches', 'trim_start_matches', 'trim_matches', 'trim', 'trim_end', 'trim_start', 'to_lowercase', 'to_ascii_lowercase',
-               'to_uppercase', 'to_ascii_uppercase', 'strip_suffix', 'strip_prefix', 'make_ascii_lowercase', 'make_ascii_uppercase'}
+# normalising str methods, by what they do to the value (two spellings of the same normalisation are the same normalisation:
+# `trim_end_matches('.')` and `strip_suffix('.')` agree on validated guards, which have at most one trailing dot)
+NORMALISER_CLASS = {
+    'trim_end_matches': 'strip-trailing', 'strip_suffix': 'strip-trailing', 'trim_end': 'strip-trailing',
+    'trim_start_matches': 'strip-leading', 'strip_prefix': 'strip-leading', 'trim_start': 'strip-leading',
+    'trim_matches': 'strip-both', 'trim': 'strip-both',
+    'to_lowercase': 'fold-lower', 'to_ascii_lowercase': 'fold-lower', 'make_ascii_lowercase': 'fold-lower',
+    'to_uppercase': 'fold-upper', 'to_ascii_uppercase': 'fold-upper', 'make_ascii_uppercase': 'fold-upper',
+}
+NORMALISERS = set(NORMALISER_CLASS)
+# ways of walking a string / its labels back to front
+REVERSERS = {'rev', 'rsplit', 'rsplitn', 'rsplit_terminator', 'rsplit_once', 'next_back', 'reverse', 'rfind', 'rmatch_indices', 'rmatches'}
 
 
 def r1_validated_constructor(ctx):
@@ -110,36 +120,52 @@ def r2_one_pattern_source(ctx):
     ipl = op_place(ins[0][1]['args'][1])
     isl, _ = backward_slice(det, ipl['l'], defs)
     ctx.ob('C20.R2', 'inserts-the-pattern', PATTERN in {c for c, _, _ in slice_calls(isl)}, det.loc(ib), 'the inserted route is matchit_pattern() of the guard')
-    # error flag
-    ider = forward_derived(det, {ins[0][1]['dest']['l']}, through_calls=True)
-    err_t = []
-    for sb in det.live_blocks():
-        w = det.term(sb)
-        if w and w['k'] == 'switch' and strip_generics(w.get('enum', '')) == 'core::result::Result' and w['src']['l'] in ider:
-            edges = {n_: tg for n_, tg in w['ts']}
-            if 'Err' in edges:
-                err_t.append(edges['Err'])
-            elif 'Ok' in edges:
-                err_t.append(w['else'])
-    sets = {}
-    for bb, j, st in det.all_assigns():
-        if st['rv']['k'] == 'use' and st['rv']['op'].get('int') == '1' and det.locals[st['lhs']['l']] == 'bool' and not st['lhs'].get('p'):
-            sets.setdefault(st['lhs']['l'], []).append(bb)
-    oks = [bb for bb, j, st in det.all_assigns() if st['lhs'] == {'l': 0} and st['rv']['k'] == 'agg' and st['rv'].get('var') == 'Ok']
-    good = False
-    for flag, blocks in sets.items():
-        always = all(not (det.reachable(e, avoid=blocks) & ({hb} | set(det.return_blocks()))) or e in blocks for e in err_t)
-        fl = forward_derived(det, {flag})
-        guarded = False
-        for sb in det.live_blocks():
-            w = det.term(sb)
-            if w and w['k'] == 'switch' and 'enum' not in w and op_place(w['d']) and op_place(w['d'])['l'] in fl:
-                zero = [tg for v_, tg in w['ts'] if v_ == '0']
-                guarded = bool(oks) and all(any(o in det.reachable(z, avoid=[w['else']]) for z in zero) and o not in det.reachable(w['else'], avoid=zero) for o in oks)
-        if always and guarded:
-            good = True
-    ctx.ob('C20.R2', 'conflict-yields-error', bool(err_t) and good, det.loc(ib),
-           'the Err arm of insert always sets an error flag and Ok(()) is returned only when that flag is clear: %s' % good)
+    # nothing is declared conflict-free before every guard was examined: an Ok result is only produced after the loop
+    oks = [bb for bb, j, st in det.all_assigns() if st['rv']['k'] == 'agg' and st['rv'].get('var') == 'Ok'
+           and strip_generics(st['rv'].get('adt', '')) == 'core::result::Result']
+    early = [o for o in oks if not det.dominates(hb, o)]
+    ctx.ob('C20.R2', 'ok-only-after-every-guard-was-examined', bool(oks) and not early, det.loc(early[0]) if early else det.loc(hb),
+           'Ok(()) is produced only after the loop over the guards: %s (an early `return Ok(())` skips the overlap check for the inputs it covers)' % (not early))
+    # P11 case evaluation: the function interpreted with Router::insert reporting a conflict (always / once, then accepting): whatever
+    # the bookkeeping (flag, counter, early return), every path on which a conflict was reported returns Err
+    from ..absint_std import StdSem, TagInterp
+
+    class Sem(StdSem):
+        crate = CR
+
+        def __init__(self, fb, script):
+            super().__init__(fb)
+            self.script = script
+
+        def domain_call(self, interp, path, body, bb, term, short):
+            d = term.get('dest')
+            if short == 'matchit::router::Router::insert' and d is not None and not d.get('p'):
+                dk = (body.id, d['l'])
+                n = path.env.get('inserts', 0)
+                err = self.script == 'always' or (self.script == 'first' and n == 0)
+                path.env['inserts'] = min(n + 1, 2)
+                if err:
+                    path.env['conflict'] = True
+                path.alias.pop(dk, None)
+                path.memo.pop(dk, None)
+                path.tags[dk] = 'res:Err' if err else 'res:Ok'
+                return [('next', path)]
+            return None
+
+        def descend_into(self, short):
+            return False
+
+    bad, seen_conflict = [], 0
+    for script in ('always', 'first'):
+        outs = TagInterp(Sem(ctx.fb, script)).run(det, {})
+        for oc in outs:
+            if oc[0] == 'return' and oc[1].env.get('conflict'):
+                seen_conflict += 1
+                if oc[1].tags.get((det.id, 0)) != 'res:Err':
+                    bad.append((script, oc[1].tags.get((det.id, 0))))
+    ctx.ob('C20.R2', 'conflict-yields-error', seen_conflict > 0 and not bad, det.loc(ib),
+           'detect_domain_conflicts interpreted with insert() reporting a conflict (every time / the first time only): %d returning path(s) saw a '
+           'conflict, %d of them do not return Err%s' % (seen_conflict, len(bad), '' if not bad else ' %s' % bad[:3]))
 
 
 def r3_normalisation_agreement(ctx):
@@ -149,12 +175,18 @@ def r3_normalisation_agreement(ctx):
     new = ctx.need('C20.R3', 'DomainGuard::new', ctx.fb.body(CR, DG + '::new'))
     guard_side = set()
     # everything between the user's string and the pattern handed to matchit: the constructor and matchit_pattern (with closures)
-    guard_bodies = ctx.fb.bodies_of_item(CR, DG + '::new') + ctx.fb.bodies_of_item(CR, PATTERN)
+    from ..inline import inlined, closures_of
+    guard_bodies = []
+    for it in (DG + '::new', PATTERN):
+        gb0 = ctx.fb.body(CR, it)
+        if gb0 is not None:
+            gi = inlined(ctx.fb, gb0, keep={VALIDATE})
+            guard_bodies += [gi] + closures_of(ctx.fb, gi)
     for gb in guard_bodies:
         for bb, t in gb.calls():
             m = (callee(t) or '').split('::')[-1]
             if m in NORMALISERS:
-                guard_side.add(m)
+                guard_side.add(NORMALISER_CLASS[m])
     host_side = set()
     found = False
     by_item = {}
@@ -166,7 +198,7 @@ def r3_normalisation_agreement(ctx):
     for item, idents in by_item.items():
         if 'host' in idents and 'rev' in idents and 'Authority' in idents:
             found = True
-            host_side |= {i for i in idents if i in NORMALISERS}
+            host_side |= {NORMALISER_CLASS[i] for i in idents if i in NORMALISERS}
             ctx.ob('C20.R3', 'host-reversed', 'rev' in idents and 'replace' in idents, '',
                    'the generated Host normalisation (%s) replaces separators and reverses: %s' % (item.split('::')[-1], [i for i in idents if i in ('replace', 'chars', 'rev', 'collect')]))
     ctx.need('C20.R3', 'Host normalisation template in codegen::router', found)
@@ -174,7 +206,9 @@ def r3_normalisation_agreement(ctx):
            'guard side applies %s; generated host side applies %s' % (sorted(guard_side), sorted(host_side)))
     pat = ctx.fb.body(CR, PATTERN)
     if ctx.need('C20.R3', 'matchit_pattern', pat) is not None:
-        rev = [1 for bb, t in pat.calls() if callee(t) in ('core::iter::traits::iterator::Iterator::rev',)]
+        from ..inline import inlined, closures_of
+        ipat = inlined(ctx.fb, pat)
+        rev = [1 for x in [ipat] + closures_of(ctx.fb, ipat) for bb, t in x.calls() if (callee(t) or '').split('::')[-1] in REVERSERS]
         ctx.ob('C20.R3', 'guard-reversed', bool(rev), pat.loc(), 'matchit_pattern() walks the guard in reverse: %s' % bool(rev), nontrivial=False)
 
 
